@@ -162,6 +162,21 @@ info("C16",
                   "the step harnesses show every operation preserves it, IOQueue::new() establishes it"])
 
 
+@generator
+def gen_c05(ctx):
+    out = ["// generated: OSC colour commands by role", "use crate::c05::*;", ""]
+    names = {0: "fg", 1: "bg", 2: "palette"}
+    for which in (0, 1, 2):
+        for query in (False, True):
+            out.append("/// @timeout 900\n/// @bounds %s colour %s: %s\n/// @encodes encoder::TTYEncoder::encode[Color]\n"
+                       "#[cfg_attr(kani, kani::proof)]\n#[cfg_attr(kani, kani::unwind(10))]\npub fn c05_color_%s_%s() {\n"
+                       "    color_case::<%d, %s>()\n}\n"
+                       % (names[which], "query" if query else "set",
+                          ("every opaque colour" if not query else "query form") + ("; palette index <= 999" if which == 2 else ""),
+                          names[which], "query" if query else "set", which, "true" if query else "false"))
+    return {"c05_gen": "\n".join(out)}
+
+
 info("C05",
      technique="Kani/CBMC bounded model checking of TTYEncoder::encode per command variant: emitted bytes are parsed "
                "back by a harness-side ECMA-48/xterm reader and compared with the command for all parameter values",
